@@ -110,6 +110,7 @@ type c16Inst struct {
 
 type c16Open struct {
 	id, obj, event, lastStatus string
+	chainBefore                string // rule updates: status of the owning appchain before it was paused
 }
 
 type c16Step struct {
@@ -121,6 +122,7 @@ type c16Step struct {
 	probeIdx    uint64
 	expectProbe string // accept | beginfail | reject
 	why         string
+	chainBefore string // conclusion of a rule update: status of the appchain before the update paused it
 	// for governance steps
 	target   string
 	trigger  string // submit:<event> | approve | reject
@@ -238,6 +240,10 @@ func (in *c16Inst) apply(op string) bool {
 		if rc := st.res.Receipts[0]; rc.IsSuccess() {
 			st.accepted = true
 			in.open = &c16Open{id: fix.ProposalID(rc), obj: f[1], event: f[2], lastStatus: st.before[f[1]]}
+			if o.kind == "rule" {
+				// the appchain is paused while its master rule is replaced: remember what it was
+				in.open.chainBefore = st.before["chain"+o.chain[len(o.chain)-1:]]
+			}
 		}
 	case "conclude": // conclude:approve|reject  (three votes, one block each)
 		if in.open == nil || in.open2 != nil {
@@ -248,6 +254,7 @@ func (in *c16Inst) apply(op string) bool {
 		}
 		st.target, st.trigger, st.accepted = in.open.obj, f[1], true
 		st.desc = fmt.Sprintf("%s (%s of %s)", op, in.open.event, in.open.obj)
+		st.chainBefore = in.open.chainBefore
 		in.open = nil
 	case "probe": // probe:p1 | probe:p3
 		p := icPairs[f[1]]
@@ -493,6 +500,16 @@ func (in *c16Inst) check(c *mc.Ctx, path []string) {
 			}
 		}
 	}
+	// a master-rule update gives the appchain back the status it had before the update paused
+	// it: a chain that was frozen (by an approved freeze) stays frozen, whatever the verdict
+	if st.chainBefore == "frozen" && st.target != "" {
+		if o := in.objs[st.target]; o != nil && o.kind == "rule" {
+			cn := "chain" + o.chain[len(o.chain)-1:]
+			if after[cn] != "frozen" {
+				bad("frozen-appchain-thawed-by-rule-update", "appchain %s was frozen when the master-rule update was submitted; after the update's %s it is %s", o.chain, st.trigger, after[cn])
+			}
+		}
+	}
 	// an appchain that is frozen or logged out has no usable service, whatever the order in
 	// which its own and its services' proposals concluded
 	if ca := after["chainA"]; ca == "frozen" || ca == "forbidden" || ca == "activating" {
@@ -569,7 +586,8 @@ func (in *c16Inst) key() string {
 	// and counters are dropped.
 	op := ""
 	if in.open != nil {
-		op = in.open.obj + "/" + in.open.event + "/" + in.open.lastStatus
+		// chainBefore: the status an appchain returns to when its master-rule update is approved
+		op = in.open.obj + "/" + in.open.event + "/" + in.open.lastStatus + "/" + in.open.chainBefore
 	}
 	cache := in.w.R.Exec.VerifServiceCacheDump()
 	var cs []string
@@ -602,7 +620,7 @@ var c16ObjsRoleNode = map[string]*c16Obj{
 
 func c16RoleNode(c *mc.Ctx, depth int) {
 	ops := []string{"sub:admin3:freeze", "sub:admin3:activate", "sub:admin3:logout", "sub:nvp:register", "sub:nvp:update", "sub:nvp:logout", "conclude:approve", "conclude:reject", "restart"}
-	b := &mc.BFS{C: c, Name: "govmc-role-node", MaxDepth: depth,
+	b := &mc.BFS{C: c, Name: "govmc-role-node", MaxDepth: depth, EveryTransition: true,
 		Init: func() mc.Instance {
 			in := newC16Inst()
 			in.objs = c16ObjsRoleNode
@@ -632,7 +650,7 @@ func C16(c *mc.Ctx) {
 	if c.Quick() {
 		depth = 6
 	}
-	b := &mc.BFS{C: c, Name: "govmc", MaxDepth: depth,
+	b := &mc.BFS{C: c, Name: "govmc", MaxDepth: depth, EveryTransition: true,
 		Init:    func() mc.Instance { return newC16Inst() },
 		Enabled: func(x mc.Instance, d int) []string { return ops },
 		Apply: func(x mc.Instance, op string, path []string) (bool, bool) {
